@@ -2075,6 +2075,10 @@ def run(cx):
     check_index_inventory(cx)
     check_divisions(cx)
     check_shifts(cx)
+    # "offending input is discarded and the endpoint keeps serving its other connections": an unreadable datagram
+    # does not end the step's socket drain
+    from props.shared import socket_drain
+    socket_drain(cx, "C03.K")
     # the loop and index arguments above rest on definitions elsewhere: `packet_id::is_valid(x)` as a loop-bound
     # guard is only as good as is_valid's own definition (x <= MASK), and the fragment-buffer indices are in range
     # only if the buffer is created for exactly last_fragment_id + 1 fragments, computed without overflow
